@@ -1190,7 +1190,10 @@ func (self *ArbiterVoter) DoProposal() error {
 		return errors.New("member accept proposal count too small")
 	}
 	self.glock.Lock()
-	self.proposalId = self.proposalIndex
+	if self.proposalId < self.proposalIndex {
+		// a higher number accepted or announced in the meantime stays
+		self.proposalId = self.proposalIndex
+	}
 	self.glock.Unlock()
 	self.manager.slock.Log().Infof("Arbier voter do proposal succed, host %s aofId %s proposalId %d", self.voteHost, FormatAofId(self.voteAofId), self.proposalId)
 	return nil
@@ -1211,7 +1214,9 @@ func (self *ArbiterVoter) DoCommit() error {
 	self.glock.Lock()
 	self.proposalHost = self.voteHost
 	self.proposalFromHost = self.manager.ownMember.host
-	self.commitId = self.proposalId
+	if self.commitId < self.proposalIndex {
+		self.commitId = self.proposalIndex
+	}
 	self.glock.Unlock()
 	self.manager.slock.Log().Infof("Arbier voter do commit succed, host %s aofId %s commitId %d", self.voteHost, FormatAofId(self.voteAofId), self.commitId)
 	return nil
